@@ -5,6 +5,8 @@ import sys
 import time
 
 VERIF = os.path.dirname(os.path.dirname(os.path.abspath(__file__)))
+# corpus / self-test runs analyse scratch copies and must not overwrite the real evidence
+EVDIR = os.environ.get("IVP_EVIDENCE_DIR", os.path.join(VERIF, "evidence"))
 
 
 def load_known():
@@ -73,9 +75,9 @@ class Report:
         out = []
         for v in kf:
             out.append("KNOWN-FINDING: property=%s %s %s" % (self.prop, v["key"], known_keys[v["key"]].get("what", v["msg"])))
-        os.makedirs(os.path.join(VERIF, "evidence", "replay"), exist_ok=True)
+        os.makedirs(os.path.join(EVDIR, "replay"), exist_ok=True)
         for i, v in enumerate(new):
-            rp = os.path.join(VERIF, "evidence", "replay", "%s-%d.json" % (self.prop, i))
+            rp = os.path.join(EVDIR, "replay", "%s-%d.json" % (self.prop, i))
             with open(rp, "w") as fh:
                 json.dump(dict(property=self.prop, **{k: (str(x) if not isinstance(x, (str, int, float, list, dict, type(None))) else x) for k, x in v.items()}), fh, indent=1, default=str)
             out.append("VIOLATION property=%s replay=%s" % (self.prop, rp))
@@ -116,7 +118,7 @@ class Report:
             wall_s=round(wall, 3),
             violations=len(new),
         )
-        with open(os.path.join(VERIF, "evidence", "%s.json" % self.prop), "w") as fh:
+        with open(os.path.join(EVDIR, "%s.json" % self.prop), "w") as fh:
             json.dump(ev, fh, indent=1, default=str)
         print("\n".join(out))
         print("SUMMARY property=%s tier=%s obligations=%d discharged=%d known=%d new_violations=%d inconclusive=%d wall=%.1fs"
